@@ -118,7 +118,11 @@ def run_shard(rec):
             rec.truncated += 1
             continue
         place = rng.choice(RAND_PLACES)
-        b = sk.rand_block(rng, 5, False, sk.PLACE_IN_FUNC[place], [rng.randint(6, 14)])
+        if i % 4 == 3:
+            b = sk.rand_long(rng, sk.PLACE_IN_FUNC[place])
+            rec.count("random-long-flat")
+        else:
+            b = sk.rand_block(rng, 5, False, sk.PLACE_IN_FUNC[place], [rng.randint(6, 14)])
         src = sk.render(b, place)
         twin = sk.render(b, place, True) if sk.has_interrupt(b) else None
         cfg = envs.CFGS[rng.randrange(8)]
